@@ -232,3 +232,46 @@ Theorem C13_fixed_passes_checks : forall r : vrec,
   rec_clean (unphase_fixed r) = true /\ rec_frame r (unphase_fixed r) = true.
 Proof. exact fixed_passes_checks. Qed.
 Print Assumptions C13_fixed_passes_checks.
+
+(* ================================================================================ the header step *)
+(* header lines are (kind, id, token): kind 0 = `##phasing=...`, 1 = `##FORMAT=<ID=id,...>`, 2 = anything else *)
+
+(* no FORMAT definition of HP, PS or PQ is left in the output header *)
+Theorem C13_header_clean : forall h : list hline,
+  header_clean (unphase_header h) = true /\
+  forall k i t, In (k, i, t) (unphase_header h) -> k = 1 -> i <> K_HP /\ i <> K_PS /\ i <> K_PQ.
+Proof. exact (fun h => conj (header_clean_unphase h) (proj1 (header_clean_spec _) (header_clean_unphase h))). Qed.
+Print Assumptions C13_header_clean.
+
+(* apart from `##phasing` lines, the output header is the input header without these definitions, in order *)
+Theorem C13_header_frames : forall h : list hline,
+  drop_phasing (unphase_header h) = filter hline_keep (drop_phasing h).
+Proof. exact header_frames. Qed.
+Print Assumptions C13_header_frames.
+
+(* of the `##phasing` lines exactly the first is removed (the loop in unphase_header ends with `break`) *)
+Theorem C13_header_phasing_lines : forall h : list hline,
+  filter is_phasing_line (unphase_header h) = tl (filter is_phasing_line h).
+Proof. exact header_phasing_lines. Qed.
+Print Assumptions C13_header_phasing_lines.
+
+(* a second application changes nothing in the header apart from `##phasing` lines ... *)
+Theorem C13_header_idempotent_up_to_phasing_lines : forall h : list hline,
+  drop_phasing (unphase_header (unphase_header h)) = drop_phasing (unphase_header h).
+Proof. exact header_idem_modulo_phasing. Qed.
+Print Assumptions C13_header_idempotent_up_to_phasing_lines.
+
+(* ... but the header as a whole is not a fixed point: with two `##phasing` lines in the input the second
+   application removes the second one (witness [##phasing=a; ##phasing=b]; replays on the real CLI). *)
+Definition C13_header_idempotent_full_statement : Prop :=
+  forall h : list hline, unphase_header (unphase_header h) = unphase_header h.
+Theorem C13_header_idempotent_refuted :
+  ~ (forall h : list hline, unphase_header (unphase_header h) = unphase_header h).
+Proof. exact header_idem_strict_refuted. Qed.
+Print Assumptions C13_header_idempotent_refuted.
+
+Example C13_header_example :
+  let h := [(2, 0, 1); (0, 0, 2); (1, K_PS, 3); (1, 10, 4); (0, 0, 5); (1, K_HP, 6); (2, 0, 7)] in
+  unphase_header h = [(2, 0, 1); (1, 10, 4); (0, 0, 5); (2, 0, 7)] /\
+  unphase_header (unphase_header h) = [(2, 0, 1); (1, 10, 4); (2, 0, 7)].
+Proof. vm_compute. split; reflexivity. Qed.
